@@ -47,6 +47,8 @@ func rulesExtra4(c *Ctx) {
 	c.ruleR5()
 	c.ruleJ2()
 	c.ruleR4()
+	c.ruleX7()
+	c.ruleL5()
 }
 
 // ---------------------------------------------------------------------------
@@ -1927,10 +1929,8 @@ func (c *Ctx) ruleI10() {
 // sets the progress on every successful path afterwards. Otherwise the operation ends with
 // progress below maximum although the log is complete.
 func (c *Ctx) ruleR3() {
-	kMax := newKind("set-max", func(call ssa.CallInstruction) bool { return c.isMethodOn(call, "SetMax", ifaceReplInfo) })
-	kProg := newKind("set-progress", func(call ssa.CallInstruction) bool {
-		return c.isMethodOn(call, "SetProgress", ifaceReplInfo)
-	})
+	kMax := newKind("set-max", func(call ssa.CallInstruction) bool { return c.writesMax(call) })
+	kProg := newKind("set-progress", func(call ssa.CallInstruction) bool { return c.writesProgress(call) })
 	st := c.storeType()
 	if st == nil {
 		c.floor("R3", "store type", 0, 1)
@@ -1959,7 +1959,7 @@ func (c *Ctx) ruleR3() {
 			if !c.isSite(kMax, in) || c.isSite(kProg, in) {
 				return
 			}
-			if c.isMethodOn(call, "SetMax", ifaceReplInfo) {
+			if c.writesMax(call) {
 				return // the primitive itself, inside a helper
 			}
 			if !c.isControlFn(f) {
@@ -2092,7 +2092,24 @@ func (c *Ctx) ruleR5() {
 			}
 		}
 	}
-	c.floor("R5", "status read-modify-write sites", n, 2)
+	// the floor stands while the store writes the status through the raw setters at all; a
+	// status object with compare-and-set methods of its own is judged by R2 on those methods
+	raw := 0
+	for _, f := range c.methodsOf(st) {
+		if c.isTestFile(f.Pos()) || c.isControlFn(f) {
+			continue
+		}
+		eachCall(f, func(call ssa.CallInstruction) {
+			if c.isMethodOn(call, "SetMax", ifaceReplInfo) || c.isMethodOn(call, "SetProgress", ifaceReplInfo) {
+				raw++
+			}
+		})
+	}
+	if raw > 0 {
+		c.floor("R5", "status read-modify-write sites", n, 2)
+	} else {
+		c.Counts["R5:status read-modify-write sites"] = n
+	}
 }
 
 // ---------------------------------------------------------------------------
@@ -2264,9 +2281,7 @@ func shrinks(v ssa.Value, depth int, seen map[ssa.Value]bool) string {
 // the entry is in the log and its head persisted whatever happens next, and a status that does
 // not count it is below the number of entries the store holds, at rest.
 func (c *Ctx) ruleR4() {
-	kProg := newKind("set-progress", func(call ssa.CallInstruction) bool {
-		return c.isMethodOn(call, "SetProgress", ifaceReplInfo)
-	})
+	kProg := newKind("set-progress", func(call ssa.CallInstruction) bool { return c.writesProgress(call) })
 	kApp := newKind("append", func(call ssa.CallInstruction) bool { return c.isLogCall(call, "Append") })
 	st := c.storeType()
 	if st == nil {
@@ -2347,4 +2362,281 @@ func (c *Ctx) ruleR4() {
 		})
 	}
 	c.floor("R4", "local write paths", n, 1)
+}
+
+// ---------------------------------------------------------------------------
+// X7
+
+// ruleX7: the membership snapshot has one writer, the diff. The polled diff reports a join or a
+// leave by comparing the list just read with the remembered one and then remembers the new
+// list. Any other code that refreshes the remembered list (a cache refresh in Peers()) absorbs
+// the changes it covers: the next diff finds nothing new and the join is never reported — no
+// head exchange takes place with that peer.
+func (c *Ctx) ruleX7() {
+	n := 0
+	fns := c.fnsInPkg("pubsub/pubsubcoreapi")
+	// the snapshot field: assigned a value derived from the API's Peers() answer
+	var snap *types.Var
+	for _, f := range fns {
+		if c.isTestFile(f.Pos()) || c.isControlFn(f) {
+			continue
+		}
+		var peers []ssa.Value
+		eachCall(f, func(call ssa.CallInstruction) {
+			if methodName(call) == "Peers" && call.Common().IsInvoke() && strings.HasSuffix(typeStr(call.Common().Value.Type()), "coreiface.PubSubAPI") && call.Value() != nil {
+				peers = append(peers, call.Value())
+			}
+		})
+		if len(peers) == 0 {
+			continue
+		}
+		d := derived(peers, flowOpts{})
+		eachInstr(f, func(in ssa.Instruction) {
+			if st, ok := in.(*ssa.Store); ok && d[st.Val] {
+				if fa, ok := st.Addr.(*ssa.FieldAddr); ok && isRecv(f, fa.X) {
+					snap = fieldVarOf(fa)
+				}
+			}
+		})
+	}
+	if snap == nil {
+		c.floor("X7", "membership snapshot field", 0, 1)
+		return
+	}
+	// the diff: returns (at least) two lists of peers
+	isDiff := func(f *ssa.Function) bool {
+		k := 0
+		res := f.Signature.Results()
+		for i := 0; i < res.Len(); i++ {
+			if sl, ok := res.At(i).Type().Underlying().(*types.Slice); ok && strings.HasSuffix(typeStr(sl.Elem()), "peer.ID") {
+				k++
+			}
+		}
+		if k < 2 {
+			return false
+		}
+		// and compares memberships: builds or consults a set
+		compares := false
+		eachInstr(f, func(in ssa.Instruction) {
+			switch in.(type) {
+			case *ssa.Lookup, *ssa.MapUpdate:
+				compares = true
+			}
+		})
+		return compares
+	}
+	var onlyVia func(w *ssa.Function, depth int, seen map[*ssa.Function]bool) (bool, string)
+	onlyVia = func(w *ssa.Function, depth int, seen map[*ssa.Function]bool) (bool, string) {
+		if isDiff(w) {
+			return true, ""
+		}
+		if seen[w] || depth > 4 {
+			return true, ""
+		}
+		seen[w] = true
+		callers := 0
+		for _, g := range c.RepoFns {
+			if c.isTestFile(g.Pos()) {
+				continue
+			}
+			bad := ""
+			eachCall(g, func(call ssa.CallInstruction) {
+				if call.Common().StaticCallee() != w {
+					return
+				}
+				callers++
+				if ok, why := onlyVia(topLevel(g), depth+1, seen); !ok && bad == "" {
+					bad = why
+				}
+			})
+			if bad != "" {
+				return false, bad
+			}
+		}
+		if callers == 0 {
+			return false, fnKey(w)
+		}
+		return true, ""
+	}
+	for _, f := range fns {
+		if c.isTestFile(f.Pos()) {
+			continue
+		}
+		k := 0
+		eachInstr(f, func(in ssa.Instruction) {
+			st, ok := in.(*ssa.Store)
+			if !ok {
+				return
+			}
+			fa, ok := st.Addr.(*ssa.FieldAddr)
+			if !ok || fieldVarOf(fa) != snap {
+				return
+			}
+			if !c.isControlFn(f) {
+				n++
+			}
+			cons := fmt.Sprintf("%s→%s=#only-the-diff#%d", fnKey(f), snap.Name(), k)
+			k++
+			if ok, via := onlyVia(topLevel(f), 0, map[*ssa.Function]bool{}); ok {
+				c.ok("X7", cons, st.Pos(), "the remembered membership is only replaced by the diff that reports what changed")
+			} else {
+				c.bad("X7", cons, st.Pos(), "the remembered membership list, which is the baseline of the next diff, is also replaced on a path that does not go through the diff (entered from "+via+"): a peer that joined since the last poll is absorbed into the baseline without a join event, the next diff finds nothing new, and no head exchange ever takes place with it")
+			}
+		})
+	}
+	c.floor("X7", "writes of the membership snapshot", n, 1)
+}
+
+// ---------------------------------------------------------------------------
+// L5
+
+// ruleL5: look-up-then-insert is one critical section. Where a function finds a key absent
+// from a lock-protected map field and, because of that, inserts it (itself or through a
+// callee), the lock must be held for writing from the look-up to the insert. Released in
+// between (a read lock for the check, the write lock taken again to record), two callers both
+// find the key absent and both create what the entry stands for — two subscriptions to the
+// same pairwise topic, and every payload delivered twice.
+func (c *Ctx) ruleL5() {
+	n := 0
+	for _, f := range c.RepoFns {
+		if c.isTestFile(f.Pos()) {
+			continue
+		}
+		var ls map[ssa.Instruction]lockset
+		k := 0
+		eachInstr(f, func(in ssa.Instruction) {
+			lk, ok := in.(*ssa.Lookup)
+			if !ok || !lk.CommaOk {
+				return
+			}
+			fv := mapFieldOf(lk.X)
+			if fv == nil {
+				return
+			}
+			// the branch taken when the key is absent
+			var absent []*ssa.BasicBlock
+			for _, r := range *lk.Referrers() {
+				ex, ok := r.(*ssa.Extract)
+				if !ok || ex.Index != 1 {
+					continue
+				}
+				for _, rr := range *ex.Referrers() {
+					switch y := rr.(type) {
+					case *ssa.If:
+						absent = append(absent, y.Block().Succs[1])
+					case *ssa.UnOp:
+						if y.Op == token.NOT {
+							for _, r3 := range *y.Referrers() {
+								if iff, ok := r3.(*ssa.If); ok {
+									absent = append(absent, iff.Block().Succs[0])
+								}
+							}
+						}
+					}
+				}
+			}
+			if len(absent) == 0 {
+				return
+			}
+			// inserts of the same map in the absent region: direct, or in a static callee
+			var inserts []ssa.Instruction
+			for _, b := range f.Blocks {
+				cov := false
+				for _, a := range absent {
+					if branchCovers(a, b) {
+						cov = true
+					}
+				}
+				if !cov {
+					continue
+				}
+				for _, x := range b.Instrs {
+					if _, isGo := x.(*ssa.Go); isGo {
+						continue
+					}
+					if _, isDefer := x.(*ssa.Defer); isDefer {
+						continue
+					}
+					_, ins, _ := c.instrMapOps(x)
+					if ins[fv] {
+						inserts = append(inserts, x)
+					}
+				}
+			}
+			if len(inserts) == 0 {
+				return
+			}
+			if ls == nil {
+				ls = c.locksetsOf(f)
+			}
+			el := lockset{}
+			if f.Parent() == nil {
+				el = c.entryLocks(f, 0)
+			}
+			atLookup := lockset{}
+			for kk, v := range el {
+				atLookup[kk] = v
+			}
+			for kk, v := range ls[lk] {
+				atLookup[kk] = v
+			}
+			if len(atLookup) == 0 {
+				return // not a lock-protected map as far as this function shows
+			}
+			if !c.isControlFn(f) {
+				n++
+			}
+			cons := fmt.Sprintf("%s→absent(%s)→insert#%d", fnKey(f), mapFieldName(fv), k)
+			k++
+			okAll := true
+			why := ""
+			for _, ins := range inserts {
+				held := false
+				for cls, mode := range atLookup {
+					m2, still := ls[ins][cls]
+					if _, inEntry := el[cls]; inEntry {
+						m2, still = el[cls], true
+					}
+					if !still || mode != "W" || m2 != "W" {
+						continue
+					}
+					// not released in between
+					released := false
+					eachInstr(f, func(x ssa.Instruction) {
+						if released {
+							return
+						}
+						if _, isDefer := x.(*ssa.Defer); isDefer {
+							return
+						}
+						op := lockOpOf(x)
+						if op == nil || op.class != cls || (op.kind != "Unlock" && op.kind != "RUnlock") {
+							return
+						}
+						isU := func(y ssa.Instruction) bool { return y == x }
+						isI := func(y ssa.Instruction) bool { return y == ins }
+						if h1, _ := findPath(f, after(lk), nil, isU, nil); h1 == nil {
+							return
+						}
+						if h2, _ := findPath(f, after(x), nil, isI, nil); h2 != nil {
+							released = true
+						}
+					})
+					if !released {
+						held = true
+					}
+				}
+				if !held {
+					okAll = false
+					why = c.pos(ins.Pos())
+				}
+			}
+			if okAll {
+				c.ok("L5", cons, lk.Pos(), "the key is looked up and, when absent, inserted inside one write-locked section")
+			} else {
+				c.bad("L5", cons, lk.Pos(), "the key is found absent under "+atLookup.String()+" and inserted (at "+why+") without that lock having been held for writing all the way: two callers can both find it absent and both create and record what it stands for — the second overwrites the first, which keeps running (two subscriptions to one pairwise topic deliver every payload twice)")
+			}
+		})
+	}
+	c.floor("L5", "look-up-then-insert sites on lock-protected maps", n, 2)
 }
